@@ -374,7 +374,13 @@ Definition act_done (c : cfg) (i : nat) (x : state) (co br : bool) (s : st) : st
   | None => s
   end.
 
-(* the scheduler runs pending job j *)
+(* _fail_task_if_incomplete: the action executions that are still running are abandoned (state ERROR),
+   so that their late results are rejected as results of completed executions *)
+Definition abandon (s : st) : st :=
+  set_acts (map (fun a => if is_completed (a_state a) then a else mkAct ERROR (a_acc a) (a_start a)) (s_acts s)) s.
+
+(* the scheduler runs pending job j: _continue_task / _complete_task return at once unless the task is
+   still RUNNING_DELAYED *)
 Definition fire (c : cfg) (j : nat) (s : st) : st :=
   match nth_error (s_jobs s) j with
   | None => s
@@ -382,9 +388,9 @@ Definition fire (c : cfg) (j : nat) (s : st) : st :=
       let s1 := set_jobs (del_nth (s_jobs s) j) s in
       let s1 := if s_now s <? j_at jb then set_early true s1 else s1 in
       match j_kind jb with
-      | JContinue => continue_task s1
-      | JComplete x i => handle (complete c x i s1)
-      | JTimeout => if is_completed (s_state s1) then s1 else handle (complete c ERROR ITimeout s1)
+      | JContinue => if state_eqb (s_state s1) RUNNING_DELAYED then continue_task s1 else s1
+      | JComplete x i => if state_eqb (s_state s1) RUNNING_DELAYED then handle (complete c x i s1) else s1
+      | JTimeout => if is_completed (s_state s1) then s1 else handle (complete c ERROR ITimeout (abandon s1))
       | JRefresh => s1
       end
   end.
